@@ -37,6 +37,26 @@ def r1(ctx, table):
             vs = [a.split("::")[-1] for a in eff["aggs"] if a.startswith("Tag::")]
             if vs:
                 rt[val] = vs
+    if not rt:
+        # the same table written as an equality chain: `if class == CLASS_BITS_UNIVERSAL { Tag::Universal(..) } else if ..`
+        for bb, j, st in r.all_statements():
+            rv = st.get("rv") or {}
+            if st["k"] == "assign" and rv.get("k") == "agg" and rv.get("adt", "").endswith("Tag") and rv.get("variant"):
+                dnf = R.reach_dnf(r, Or, bb)
+                for path in dnf or ():
+                    vals = []
+                    for k, truth in path:
+                        parts = k.split("|")
+                        try:
+                            if parts[2] == "eq" and truth == "at-or-above":
+                                vals.append(int(parts[3]))
+                            elif parts[2] == "b" and parts[3] == "1" and truth == "below":
+                                vals.append(0)      # `x == 0` of an unsigned value is kept as `x < 1`
+                        except ValueError:
+                            continue
+                    for v in vals:
+                        if rv["variant"] not in rt.setdefault(v, []):
+                            rt[v].append(rv["variant"])
     detail = {"writer": wt, "reader": rt, "x690": want, "constants": cvals}
     for cls, bits in want.items():
         got = wt.get(cls)
